@@ -304,6 +304,14 @@ def clause_c(c: Check):
                 c.expect(bool(ok), 'C08-c', key, 'a failure found deeper is not returned', ci_.loc())
             else:
                 c.ok('C08-c', key)
+                if last and not p.truncated:
+                    # a reference that is fine does not end the loop: the remaining references are checked too
+                    idx_last_iter = max(i_ for i_, e in enumerate(p.trace) if e.kind == 'loop-iter')
+                    exited = any(e.kind == 'loop-exit' for e in p.trace[idx_last_iter:])
+                    c.expect(exited, 'C08-c', '_check_indirect/continues-after-a-satisfying-reference',
+                             'after a referenced symbol that satisfies the restriction the check returns instead of going '
+                             'on to the remaining references (a wrong-typed symbol behind the first reference is accepted)',
+                             ci_.loc())
         if not iters or all([e.data['label'] for e in evs][-1:] in (['sub-ok'],) for evs in iters if evs):
             if p.kind == 'return' and not (iters and any(not evs for evs in iters)):
                 c.expect(isinstance(p.val, K) and p.val.v is None, 'C08-c', '_check_indirect/all-ok-returns-none',
